@@ -39,6 +39,7 @@ pub fn roots_text(h: &Header) -> String {
 
 pub struct Emphasis {
     pub mutate: u64,   // per-mille of transactions mutated
+    pub twins: u64,    // eighths: how often identical coins are created and spent together
     pub pool_ops: u64, // weight of swap/deposit/withdraw
     pub stake_ops: u64,
     pub mint_ops: u64,
@@ -506,6 +507,33 @@ impl<'a> Hist<'a> {
                 label = format!("{}+spelling", label);
             }
         }
+        // inputs with identical coin data (twins): the covenant must still be judged once per input
+        let cdh_of = |i: &CoinID| wcoins.iter().find(|c| c.id == *i).map(|c| c.cdh.clone());
+        let twin_at: Vec<usize> = (1..tx.inputs.len())
+            .filter(|&i| {
+                let c = cdh_of(&tx.inputs[i]);
+                c.is_some() && (0..i).any(|j| cdh_of(&tx.inputs[j]) == c)
+            })
+            .collect();
+        if !twin_at.is_empty() {
+            self.bump("tx:twin-inputs");
+            label = format!("{}+twins", label);
+            if em.mutate > 0 && r.chance(1, 2) {
+                // the later twin's own signature slot is emptied or damaged
+                let at = *r.pick(&twin_at);
+                if at < tx.sigs.len() && !tx.sigs[at].is_empty() {
+                    let mut v = tx.sigs[at].to_vec();
+                    if r.chance(1, 2) {
+                        v[5] ^= 0x40;
+                    } else {
+                        v.clear();
+                    }
+                    tx.sigs[at] = v.into();
+                    self.bump("tx:twin-inputs-later-sig-damaged");
+                    label = format!("{}+twin-sig-damaged", label);
+                }
+            }
+        }
         if r.below(1000) < em.mutate {
             let m = mutate(r, &self.wallet, &mut tx, &wcoins, p.fee_multiplier, em.mutate >= 700);
             label = format!("{}+{}", label, m);
@@ -531,7 +559,7 @@ impl<'a> Hist<'a> {
         // key order and requests in hash order: interleavings matter)
         let cluster = em.pool_ops >= 30 && r.chance(1, 3);
         let n = if cluster { 3 + r.below(4) } else { n };
-        let cluster_em = Emphasis { mutate: 0, pool_ops: 1000, stake_ops: 0, mint_ops: 0, batches: 0, blocks: 0, chain_ops: false };
+        let cluster_em = Emphasis { mutate: 0, pool_ops: 1000, stake_ops: 0, mint_ops: 0, batches: 0, blocks: 0, chain_ops: false, twins: 2 };
         for _ in 0..n {
             let em_here = if cluster { &cluster_em } else { em };
             if let Some((tx, label)) = self.gen_tx(r, &scratch_name, em_here) {
@@ -724,6 +752,7 @@ pub fn history(r: &mut Rng, w: &mut World, out: &mut Out, em: &Emphasis, stats: 
     // starting point
     let mut unsealed: String;
     let mut parent: Option<String> = None;
+    let mut grandparent: Option<String> = None;
     if r.chance(1, 4) {
         let cfg = rand_genesis(r, &mut h.wallet);
         unsealed = h.op_genesis(cfg);
@@ -773,11 +802,28 @@ pub fn history(r: &mut Rng, w: &mut World, out: &mut Out, em: &Emphasis, stats: 
                     let label = mutate_block(r, &mut m, &mut h, pp.fee_multiplier, tip901);
                     let _ = h.op_block(p, &m, &label);
                 }
+                // a block is a successor of its parent only: neither the state it produced nor a
+                // stripped copy carrying the tip's own header may be accepted by that state
+                if r.chance(1, 2) {
+                    let _ = h.op_block(&sealed, &blk, "wrong-parent.replay-tip");
+                }
+                if r.chance(1, 3) {
+                    let mut m = blk.clone();
+                    m.transactions = Default::default();
+                    m.proposer_action = None;
+                    let _ = h.op_block(&sealed, &m, "wrong-parent.tip-header-stripped");
+                }
+                if r.chance(1, 3) {
+                    if let Some(g) = &grandparent {
+                        let _ = h.op_block(g, &blk, "wrong-parent.skips-a-block");
+                    }
+                }
             }
             if r.chance(1, 2) {
                 if let Some(rs) = h.op_restore(&sealed) {
                     // continue one lineage from the restored copy half of the time
                     if r.chance(1, 2) {
+                        grandparent = parent.take();
                         parent = Some(rs.clone());
                         match h.op_next(&rs) {
                             Some(u) => {
@@ -790,6 +836,7 @@ pub fn history(r: &mut Rng, w: &mut World, out: &mut Out, em: &Emphasis, stats: 
                 }
             }
         }
+        grandparent = parent.take();
         parent = Some(sealed.clone());
         match h.op_next(&sealed) {
             Some(u) => unsealed = u,
@@ -944,6 +991,7 @@ pub fn mutate_block(r: &mut Rng, b: &mut Block, h: &mut Hist, pre_mult: u128, ti
 }
 
 pub fn run(r: &mut Rng, n: usize, em: &Emphasis, out: &mut Out) -> BTreeMap<String, u64> {
+    crate::txgen::TWINS.store(em.twins, std::sync::atomic::Ordering::Relaxed);
     let mut stats = BTreeMap::new();
     for _ in 0..n {
         let mut w = World::new();
